@@ -26,7 +26,7 @@ def eulerian(v0, v):
 
 class Dataset:
     def __init__(self, rng: numpy.random.Generator, nv=None, nq=None, nat=None, lattice=None, keys=None, tensor0=None,
-                 settings=None, interpolator="lsq_poly", order=3, system=None, vmax=None, polys=None):
+                 settings=None, interpolator="lsq_poly", order=3, system=None, vmax=None, polys=None, nv_static=None, freq_curv=0.0, axis_split=None):
         self.rng = rng
         self.nv = int(nv or rng.integers(5, 11))
         self.nq = int(nq or rng.integers(1, 6))
@@ -48,6 +48,8 @@ class Dataset:
         g = numpy.linspace(0.7, 2.1, self.nq * self.np)
         self.gam = rng.permutation(g).reshape(self.nq, self.np) + rng.uniform(-0.01, 0.01, (self.nq, self.np))
         self.amp[0, :3] = 0.0
+        # optional departure from power laws (ln omega gets a non-polynomial term c (cosh(4 ln V/V0) - 1)); zero for the in-class sets the exact oracles need
+        self.freq_curv = rng.uniform(-freq_curv, freq_curv, (self.nq, self.np)) if freq_curv else numpy.zeros((self.nq, self.np))
         self.qcoords = rng.uniform(-0.5, 0.5, (self.nq, 3))
         self.qcoords[0] = 0.0
         self.weights = rng.uniform(0.5, 12.0, self.nq)
@@ -69,18 +71,23 @@ class Dataset:
                 self.polys[k] = (c0, c0 * float(rng.uniform(8.0, 16.0)), c0 * float(rng.uniform(-20.0, 20.0)), c0 * float(rng.uniform(-30.0, 30.0)))
         self.cellmass = float(rng.uniform(15.0, 30.0)) * self.nat
         # the static table has its own volume grid (different points, possibly a different count) and its own header V_0
-        self.nv_static = int(self.nv + rng.integers(-1, 3))
+        self.nv_static = int(nv_static) if nv_static else int(self.nv + rng.integers(-1, 3))
         self.static_volumes = numpy.linspace(self.volumes[0] * float(rng.uniform(0.97, 1.03)), self.volumes[-1] * float(rng.uniform(0.97, 1.03)),
-                                             max(self.nv_static, 5))
+                                             max(self.nv_static, 4))
         self.nv_static = len(self.static_volumes)
         self.vref = float(self.v0 * rng.uniform(0.9, 0.98))
         # ---- lattice parameters
         s = rng.dirichlet([6.0, 6.0, 6.0])
         while s.min() < 0.2 or min(abs(s[0] - s[1]), abs(s[0] - s[2]), abs(s[1] - s[2])) < 0.03:
             s = rng.dirichlet([6.0, 6.0, 6.0])
-        self.axis_exp = s
         c = rng.uniform(-0.08, 0.08, 3)
-        self.axis_curv = c - c.mean()          # fractions vary with volume: e_i(V) = s_i + 2 t_i ln(V/V0), sum = 1
+        c = c - c.mean()
+        if axis_split:
+            # nearly (not exactly) equal strain fractions of the first two axes, constant in volume
+            s = numpy.array([(1 - s[2]) / 2 + axis_split / 2, (1 - s[2]) / 2 - axis_split / 2, s[2]])
+            c = numpy.zeros(3)
+        self.axis_exp = s
+        self.axis_curv = c          # fractions vary with volume: e_i(V) = s_i + 2 t_i ln(V/V0), sum = 1
         self.axis0 = rng.uniform(0.8, 3.0, 3)
         self.system = system
         self.interpolator, self.order = interpolator, order
@@ -93,7 +100,8 @@ class Dataset:
     # ------------------------------------------------------------------ exact model functions
     def freq(self, v):
         v = numpy.asarray(v, dtype=float)
-        return self.amp[None] * (v[:, None, None] / self.v0) ** (-self.gam[None])
+        x = numpy.log(v[:, None, None] / self.v0)
+        return self.amp[None] * numpy.exp(-self.gam[None] * x + self.freq_curv[None] * (numpy.cosh(4.0 * x) - 1.0))
 
     def static_gpa(self, key, v):
         f = eulerian(self.v0, numpy.asarray(v, dtype=float))
